@@ -452,6 +452,21 @@ func (p c12) checkTrace(c *core.Ctx, sc *c12Scenario, desc string, run *c12Run, 
 		}
 	}
 	if rec.FailedSeq < 0 {
+		// (2b) without a fault the edit root and each of its ancestors, up to the root of the data, is told
+		if run.err == nil {
+			told := map[string]bool{}
+			for _, e := range rec.Events {
+				if e.CB == "BeginEdit" && e.Side == "tgt" {
+					told[e.Node] = true
+				}
+			}
+			for id := range ancestorsOf(sc.path) {
+				if !told[id] {
+					c.Violate("ancestor-not-told/"+tag, "node %s is the edit root or one of its ancestors and was not told the edit began\n%s", id, wit())
+					return
+				}
+			}
+		}
 		return
 	}
 	// (3) the injected error surfaces, wrapped
